@@ -1,4 +1,4 @@
-\* energies: every assignment of 0..2 to the nodes of every network with <= 5 nodes and <= 5 edges;
+\* energies: every assignment of 0..2 to the nodes of every network with <= 4 nodes and <= 5 edges;
 \* one target, no cutoff
 SPECIFICATION Spec
 CONSTANTS
